@@ -151,7 +151,10 @@ def check_c02(ctx, results, prop="C02"):
             pos = trace.dec_pos(a["pos"])
             try:
                 v = f(pos)
-                true_cost = float(np.dot(v, w)) if w is not None else float(v)
+                if w is not None:
+                    true_cost = float(np.dot(np.atleast_1d(v), w))
+                else:
+                    true_cost = float(v[0]) if isinstance(v, list) and len(v) == 1 else float(v)
             except Exception as e:  # position so malformed the objective cannot be evaluated: C01's business
                 ctx.dist["c02-unevaluable-position"] += 1
                 continue
